@@ -561,7 +561,7 @@ kfs_harness! {
     #[kani::stub(crate::sharded::Cache::shard_ids, ids_01)]
     #[kani::stub(crate::sharded::Cache::random_shard_id, random_2)]
     fn stack_ops_sanity_twin() {
-        stack_case(W_PLAIN, 1, OP_GET, CK_NONE, true, false, kfs::ENV_NONE, [SYM, SYM, SYM]);
+        stack_case(W_PLAIN, 0, OP_GET, CK_NONE, true, false, kfs::ENV_NONE, [SYM, SYM, SYM]);
         assert!(false, "KV-SANITY: reachable end of harness");
     }
 }
